@@ -72,6 +72,14 @@ def install(I: Interp):
     for fn in ("log", "exp", "sqrt", "abs", "log10"):
         E[f"numpy.{fn}"] = np_unary(fn)
 
+    # numpy.square(x) / numpy.power(x, 2) are x * x: expressed through the interpreter's own arithmetic so that every domain agrees
+    E["numpy.square"] = lambda I, a, k, n: I.binop(__import__("ast").Mult(), a[0], a[0], n)
+    E["numpy.multiply"] = lambda I, a, k, n: I.binop(__import__("ast").Mult(), a[0], a[1], n)
+    E["numpy.subtract"] = lambda I, a, k, n: I.binop(__import__("ast").Sub(), a[0], a[1], n)
+    E["numpy.add"] = lambda I, a, k, n: I.binop(__import__("ast").Add(), a[0], a[1], n)
+    E["numpy.divide"] = lambda I, a, k, n: I.binop(__import__("ast").Div(), a[0], a[1], n)
+    E["numpy.true_divide"] = E["numpy.divide"]
+
     def np_reduce(name):
         def f(I, a, k, n):
             return Num.atom(f"{name}({I.describe(a[0])})")
